@@ -396,6 +396,8 @@ package crypto
 //@ ensures [inv] vssInv(s) && unchanged(s.dkgCommon) && unchanged(s.dealerIndex)
 //@ ensures [bad-size-invalidates] old(!s.vAReceived && origin == s.dealerIndex && len(data) != 96*(s.threshold+1)) ==> !s.validKey
 //@ ensures [bad-vector-invalidates] old(!s.vAReceived && origin == s.dealerIndex && len(data) == 96*(s.threshold+1) && !g2vecValid(data, s.threshold+1)) ==> !s.validKey
+//@ ensures [a-vector-from-the-dealer-is-final] old(origin == s.dealerIndex) ==> s.vAReceived   // good or bad: a later vector is refused, so a disqualifying vector cannot be overwritten
+//@ ensures [refused-once-received] old(s.vAReceived) ==> unchanged(s.validKey) && unchanged(s.vA) && unchanged(s.y) && unchanged(s.vAReceived)
 
 // ---------------------------------------------------------------------------------------------
 // BLS key objects
@@ -1486,7 +1488,7 @@ package crypto
 
 //@ pred noUnanswered(q) = forall(k, 0, 256, has(q.complaints, k) ==> !(q.complaints[k].received && !q.complaints[k].answerReceived))
 //@ pred jfKept(s) = unchanged(s.dkgCommon) && unchanged(s.fvss) && unchanged(s.size) && unchanged(s.threshold) && unchanged(s.myIndex) && unchanged(s.processor) && unchanged(s.running) && forall(j, 0, s.size, unchanged(s.fvss[j].complaints) && unchanged(s.fvss[j].sharesTimeout) && unchanged(s.fvss[j].complaintsTimeout) && unchanged(s.fvss[j].feldmanVSSstate) && (old(s.fvss[j].disqualified) ==> s.fvss[j].disqualified))
-//@ func (*JointFeldmanState).End mode int props C10 C09
+//@ func (*JointFeldmanState).End mode int props C10 C09 C07 C08
 //@ requires jfInv(s)
 //@ assigns s.jointRunning, s.fvss[:], ghost(s.processor)
 //@ ensures [reject-idle] !old(s.jointRunning) ==> iserr(result3, *dkgInvalidStateTransitionError) && nothingAssigned() && result0 == nil && result1 == nil && len(result2) == 0
